@@ -117,6 +117,10 @@ pub struct BBook {
     pub extern_sheets: Option<Vec<(i32, i32)>>,
     pub names: Vec<(String, Vec<u8>)>,
     pub vba: Option<Vec<u8>>,
+    /// cstTotal of BrtBeginSst (number of references to strings in the workbook); None = equal to the number of items
+    pub sst_total_refs: Option<u32>,
+    /// relationship ids with a non-ASCII letter (an xsd:ID may contain any letter) instead of rIdN
+    pub rel_ids_non_ascii: bool,
 }
 
 pub fn row_hdr(row: u32) -> Vec<u8> {
@@ -179,13 +183,16 @@ pub fn sheet_bin(s: &BSheet) -> Vec<u8> {
     o
 }
 
+/// relationship id of the n-th sheet (1-based): `rIdN`, or with U+0131 / U+00E9 in it (the former's low byte is '1')
+fn rel_id(b: &BBook, n: usize) -> String { if b.rel_ids_non_ascii { format!("r\u{e9}l\u{131}{n}") } else { format!("rId{n}") } }
+
 pub fn workbook_bin(b: &BBook) -> Vec<u8> {
     let mut o = rec(0x83, &[]);
     let mut d = (b.date1904 as u32).to_le_bytes().to_vec(); d.extend(0u32.to_le_bytes()); d.extend(ws(""));
     o.extend(rec(0x99, &d));
     o.extend(rec(0x8F, &[]));
     for (i, s) in b.sheets.iter().enumerate() {
-        let mut d = s.state.to_le_bytes().to_vec(); d.extend((i as u32 + 1).to_le_bytes()); d.extend(ws(&format!("rId{}", i + 1))); d.extend(ws(&s.name));
+        let mut d = s.state.to_le_bytes().to_vec(); d.extend((i as u32 + 1).to_le_bytes()); d.extend(ws(&rel_id(b, i + 1))); d.extend(ws(&s.name));
         o.extend(rec(0x9C, &d));
     }
     o.extend(rec(0x90, &[]));
@@ -223,7 +230,7 @@ pub fn styles_bin(b: &BBook) -> Vec<u8> {
 }
 
 pub fn sst_bin(b: &BBook) -> Vec<u8> {
-    let mut d = (b.sst.len() as u32).to_le_bytes().to_vec(); d.extend((b.sst.len() as u32).to_le_bytes());
+    let mut d = b.sst_total_refs.unwrap_or(b.sst.len() as u32).to_le_bytes().to_vec(); d.extend((b.sst.len() as u32).to_le_bytes());
     let mut o = rec(0x9F, &d);
     for (i, s) in b.sst.iter().enumerate() {
         let (runs, ph) = b.sst_extra.get(i).cloned().unwrap_or((0, None));
@@ -252,7 +259,7 @@ pub fn write(b: &BBook, method: Method) -> Vec<u8> {
     let mut rels = format!("<?xml version=\"1.0\" encoding=\"UTF-8\" standalone=\"yes\"?>\n<Relationships xmlns=\"{NS_PKG_REL}\">");
     for (i, s) in b.sheets.iter().enumerate() {
         let ty = match s.dir { "chartsheets" => "chartsheet", "dialogsheets" => "dialogsheet", "macrosheets" => "xlMacrosheet", _ => "worksheet" };
-        rels.push_str(&format!("<Relationship Id=\"rId{}\" Type=\"http://schemas.openxmlformats.org/officeDocument/2006/relationships/{ty}\" Target=\"{}/sheet{}.bin\"/>", i + 1, s.dir, i + 1));
+        rels.push_str(&format!("<Relationship Id=\"{}\" Type=\"http://schemas.openxmlformats.org/officeDocument/2006/relationships/{ty}\" Target=\"{}/sheet{}.bin\"/>", rel_id(b, i + 1), s.dir, i + 1));
     }
     rels.push_str(&format!("<Relationship Id=\"rId{}\" Type=\"http://schemas.openxmlformats.org/officeDocument/2006/relationships/styles\" Target=\"styles.bin\"/>", b.sheets.len() + 1));
     rels.push_str(&format!("<Relationship Id=\"rId{}\" Type=\"http://schemas.openxmlformats.org/officeDocument/2006/relationships/sharedStrings\" Target=\"sharedStrings.bin\"/>", b.sheets.len() + 2));
